@@ -89,6 +89,40 @@ def items():
 
         out.append(("fea:%s" % name, run))
 
+    # generated feature files with several language systems and script / language specific rules (the
+    # builder keeps the language systems in a set): aalt collecting from such features, in every
+    # arrangement of 2..4 scripts
+    import itertools as _it
+
+    def fea_multi(scripts, with_lang):
+        ls = "languagesystem DFLT dflt;\n" + "".join("languagesystem %s dflt;\n" % sc for sc in scripts)
+        if with_lang:
+            ls += "languagesystem latn TRK;\n"
+        body = "  sub b by a.alt0;\n"
+        for i, sc in enumerate(scripts):
+            body += "  script %s; sub a by a.alt%d;\n" % (sc, (i + 1) % 3)
+            if with_lang and sc == "latn":
+                body += "  language TRK; sub a by a.alt0;\n"
+        kern = "feature kern {\n  pos a b -10;\n" + "".join("  script %s; pos a b %d;\n" % (sc, -20 - i) for i, sc in enumerate(scripts)) + "} kern;\n"
+        return ls + "feature aalt { feature salt; feature ss01; } aalt;\nfeature salt {\n" + body + "} salt;\nfeature ss01 { sub a by a.alt2; sub b by a.alt1; } ss01;\n" + kern
+
+    def fea_item(text):
+        def run():
+            from fontTools.feaLib.builder import addOpenTypeFeaturesFromString
+
+            font = tinyfont.build({"kind": "ttf", "shapes": "box", "glyphs": ["a", "b", "a.alt0", "a.alt1", "a.alt2"], "cmap": {97: "a", 98: "b"}})
+            addOpenTypeFeaturesFromString(font, text)
+            return b"".join(font.getTableData(t) for t in ("GSUB", "GPOS", "GDEF") if t in font)
+
+        return run
+
+    for k in (2, 3, 4):
+        for scripts in _it.permutations(["latn", "cyrl", "grek", "arab"][:k]):
+            for with_lang in (False, True):
+                if with_lang and "latn" not in scripts:
+                    continue
+                out.append(("fea:generated:%s%s" % ("+".join(scripts), ":TRK" if with_lang else ""), fea_item(fea_multi(scripts, with_lang))))
+
     # subsetting
     from fontTools import subset
 
@@ -129,6 +163,58 @@ def items():
     for n, d in subset_fonts:
         for optname, optargs in (("default", ()), ("all-features", ("--layout-features=*", "--glyph-names", "--notdef-outline")), ("retain-gids", ("--retain-gids",)), ("desub", ("--desubroutinize", "--no-hinting"))):
             out.append(("subset:%s:%s" % (n, optname), do_subset(d, optargs, "half")))
+
+    # tables that keep per-glyph data in dicts / choose a most common value (AAT bsln, prop, lcar, opbd,
+    # ankr; COLR, MATH, SVG ...): EVERY pair of mapped characters (fonts with <= 10 of them), with and
+    # without .notdef - which glyph set leaves a tie or an unsorted dict is not known in advance
+    COMMON = {"GlyphOrder", "head", "hhea", "maxp", "OS/2", "hmtx", "cmap", "loca", "glyf", "name", "post", "CFF ", "CFF2", "GSUB", "GPOS", "GDEF",
+              "fvar", "gvar", "avar", "HVAR", "MVAR", "STAT", "kern", "gasp", "prep", "fpgm", "cvt ", "DSIG", "vhea", "vmtx", "VORG", "BASE"}
+
+    def do_subset_pair(data, optargs, pair):
+        def run():
+            opts = subset.Options()
+            opts.parse_opts(list(optargs))
+            f = TTFont(io.BytesIO(data()))
+            s = subset.Subsetter(opts)
+            s.populate(unicodes=list(pair))
+            s.subset(f)
+            return save(f)
+
+        return run
+
+    import itertools
+
+    for n, d in subset_fonts:
+        if n.startswith("tiny:"):
+            continue
+        try:
+            f0 = TTFont(io.BytesIO(d()), lazy=True)
+            cps = sorted(f0.getBestCmap() or {})
+            special = set(f0.keys()) - COMMON
+        except Exception:
+            continue
+        if not special or not 2 <= len(cps) <= 10:
+            continue
+        for pair in itertools.combinations(cps, 2):
+            for optname, optargs in (("default", ()), ("no-notdef", ("--no-notdef-glyph",))):
+                out.append(("subset-pair:%s:%04X+%04X:%s" % (n, pair[0], pair[1], optname), do_subset_pair(d, optargs, pair)))
+
+    # a COLR table with v1 glyphs AND several v0 base glyphs
+    def colr_mixed():
+        from fontTools.colorLib import builder as cb
+        from fontTools.ttLib.tables.otTables import PaintFormat
+
+        font = tinyfont.build({"kind": "ttf", "shapes": "mixed", "glyphs": ["a", "b", "c", "d", "e", "f", "x1", "x2", "x3"]})
+        solid = {"Format": PaintFormat.PaintSolid, "PaletteIndex": 0, "Alpha": 1.0}
+        font["COLR"] = cb.buildCOLR({"a": {"Format": PaintFormat.PaintGlyph, "Paint": solid, "Glyph": "x1"},
+                                     "b": [("x1", 0)], "c": [("x2", 1)], "d": [("x3", 0)], "e": [("x1", 1)], "f": [("x2", 0), ("x3", 1)]},
+                                    version=None, glyphMap=font.getReverseGlyphMap())
+        font["CPAL"] = cb.buildCPAL([[(1, 0, 0, 1), (0, 1, 0, 1)]])
+        return tinyfont.to_bytes(font)
+
+    for optname, optargs in (("default", ()), ("retain-gids", ("--retain-gids",))):
+        out.append(("subset:tiny:colr-v1+v0:%s" % optname, do_subset(colr_mixed, optargs, "all")))
+        out.append(("subset:tiny:colr-v1+v0:half:%s" % optname, do_subset(colr_mixed, optargs, "half")))
 
     # instancing
     from fontTools.varLib import instancer
